@@ -159,12 +159,15 @@ M("c01_append_before_walk_exhausted", ["C01"], ["C01.R4"], [
                     chunk = next_chunk;
 
                     // We don't reset""")])
-M("neg_c01_reorder_independent", ["C01"], [], [
-    ("src/raw_bump.rs", """                    chunk.reset();
-
-                    self.chunk.set(chunk.raw);""", """                    self.chunk.set(chunk.raw);
-
-                    chunk.reset();""")], negative=True)
+M("c01_walk_never_commits", ["C01"], ["C01.R4"], [
+    ("src/raw_bump.rs", """                        self.chunk.set(chunk.raw);
+                        return Ok(ptr);""", """                        return Ok(ptr);""")])
+M("c01_walk_commits_only_on_miss", ["C01"], ["C01.R4"], [
+    ("src/raw_bump.rs", """                        self.chunk.set(chunk.raw);
+                        return Ok(ptr);
+                    }""", """                        return Ok(ptr);
+                    }
+                    self.chunk.set(chunk.raw);""")])
 
 # ---------------------------------------------------------------- C13
 M("c13_remove_deallocates_gates", ["C13"], ["C13.R1"], [
@@ -1223,3 +1226,12 @@ M("c06_zst_drain_double_drop_revert", ["C06"], ["C06.R5"], [
                 mem::forget(iter);
 """, """                let drop_len = iter.len();
 """)])
+
+M("c07_in_another_chunk_commit_revert", ["C07"], ["C07.R6"], [
+    ("src/raw_bump.rs", """                    if let Some(ptr) = f(chunk.raw, layout) {
+                        // Only switch chunks once the request is satisfied: if appending a new
+                        // chunk fails below, the current chunk must still be the one we started in.
+                        self.chunk.set(chunk.raw);
+                        return Ok(ptr);""", """                    self.chunk.set(chunk.raw);
+                    if let Some(ptr) = f(chunk.raw, layout) {
+                        return Ok(ptr);""")])
